@@ -241,7 +241,7 @@ class Exec:
             before = [t.id() for t in self.node_pool()]
             if via == "api":
                 try:
-                    ok = self.node.cm.add_transaction_to_pool(sk)
+                    ok = self.net.call(self.node, self.node.cm.add_transaction_to_pool, sk)
                 except Exception:
                     ok = False
             else:
@@ -320,7 +320,7 @@ class Exec:
             MG.validate_non_coinbase_transaction_in_coinstate = validate_then_interleave
             try:
                 try:
-                    self.node.cm.add_transaction_to_pool(self.b.to_sk_tx(tx))
+                    self.net.call(self.node, self.node.cm.add_transaction_to_pool, self.b.to_sk_tx(tx))
                 except Exception:
                     pass
             finally:
@@ -379,7 +379,7 @@ class Exec:
             tx = R.RTx([(cbref[0], 0, ("se",))], [(o[0] - a % 7, KEYS[a % len(KEYS)].pub)])
             tx.ins = [(cbref[0], 0, ("sig", kk.sign(R.signing_message(tx))))]
             tx.touch()
-            if self.node.cm.add_transaction_to_pool(self.b.to_sk_tx(tx)):
+            if self.net.call(self.node, self.node.cm.add_transaction_to_pool, self.b.to_sk_tx(tx)):
                 self.pool.append(tx)
             # an invalid block (passes the stand-alone checks, fails in-state validation: timestamp equal to its parent's)
             self.n += 1
